@@ -338,6 +338,12 @@ func (r *resolver) Resolve(typ string, obj gqlref.Obj, f *ast.Field, args map[st
 		s += r.cnt[field] * 7
 		key = fmt.Sprintf("mut%d", r.cnt[field])
 	}
+	if typ == "Subscription" {
+		// the event number is set by the emitting harness
+		n := r.cnt["__event"]
+		s += n * 7
+		key = fmt.Sprintf("ev%d", n)
+	}
 	return r.value(ds, typ, field, fd.Type, key, s, args, 0)
 }
 
